@@ -3,6 +3,7 @@
 //!   opwv replay <generator> <in.ndjson> <out.ndjson>   spec -> impl (B1)
 //!   opwv record <what> <out.ndjson>                    impl -> spec (B2 / B3)
 mod chain;
+mod collide;
 mod frame3;
 mod jac;
 mod lattice;
@@ -10,6 +11,7 @@ mod limits;
 mod oracle;
 mod pgram;
 mod robots;
+mod scene;
 mod singular;
 mod solver;
 mod stack;
@@ -35,6 +37,9 @@ fn main() {
         ("record", "jac") => jac::record(&args[3]),
         ("replay", "frame3") => frame3::replay(&args[3], &args[4]),
         ("record", "ftrans") => frame3::record(&args[3]),
+        ("replay", "tasks") => collide::replay_tasks(&args[3], &args[4]),
+        ("record", "collision") => collide::record_geometry(&args[3]),
+        ("record", "offsets") => collide::record_offsets(&args[3]),
         ("record", "ik") => solver::record(&args[3], &args[4]),
         ("record", "follow") => solver::record_follow(&args[3]),
         _ => {
